@@ -183,9 +183,14 @@ func RunRepl(prompt string, opts ...Option) {
 		rootDir = wd
 	}
 
+	library, err := lisp.NewRootedFSLibrary(rootDir)
+	if err != nil {
+		errlnf("Cannot open root directory: %v", err)
+		os.Exit(1)
+	}
 	envOpts := []lisp.Config{
 		lisp.WithReader(parser.NewReader()),
-		lisp.WithLibrary(&lisp.FSLibrary{FS: os.DirFS(rootDir)}),
+		lisp.WithLibrary(library),
 	}
 
 	if cfg.stderr != nil {
